@@ -659,9 +659,9 @@ func runCase(fc fcase) {
 	if n := w.writesAfterClose.Load() - w0; n > 0 {
 		rep.Violation("write-after-close-"+fc.Transport, fmt.Sprintf("%d write(s) on a connection by a call issued after Close", n), wit(nil))
 	}
-	for _, c := range calls {
-		c.cancel()
-	}
+	// NOTE: the callers' contexts are deliberately NOT cancelled here: a helper
+	// goroutine that is only released by its caller's context (instead of by Close
+	// or by the call returning) must show up in the final goroutine-leak check.
 	// every connection handed to the transport must be closed
 	deadline := time.Now().Add(wCtx)
 	for _, c := range w.net.Conns() {
